@@ -74,7 +74,10 @@ class Lifespan:
         if not self.supported:
             return
 
-        await self.app_send_channel.send({"type": "lifespan.startup"})
+        try:
+            await self.app_send_channel.send({"type": "lifespan.startup"})
+        except (trio.BrokenResourceError, trio.ClosedResourceError):
+            pass  # The lifespan app has finished, nothing to tell it
         try:
             with trio.fail_after(self.config.startup_timeout):
                 await self.startup.wait()
@@ -85,7 +88,10 @@ class Lifespan:
         if not self.supported:
             return
 
-        await self.app_send_channel.send({"type": "lifespan.shutdown"})
+        try:
+            await self.app_send_channel.send({"type": "lifespan.shutdown"})
+        except (trio.BrokenResourceError, trio.ClosedResourceError):
+            pass  # The lifespan app has finished, nothing to tell it
         try:
             with trio.fail_after(self.config.shutdown_timeout):
                 await self.shutdown.wait()
